@@ -4,6 +4,21 @@ import json, subprocess, sys, os
 ROOT = "/verif"
 CHECKS = {
  # id: (category, technique, text, note, design_ref)
+ "C02": ("exploration", "runtime monitor: generated-tree oracle (ECMAScript-aware unparser with ground truth, each text confirmed by acorn) vs recorded xjs tree; exhaustive operator pairs/triples and statement-form matrix + random trees in many layouts",
+         "Trees are generated, rendered by an unparser written from the ECMAScript grammar in 6-10 layouts (minimal/redundant parentheses, spacing, line breaks incl. restricted productions, comments, ;/ASI, CRLF); acorn must read each text as the generated tree (else the case is dropped as oracle-inconsistent); xjs's recorded tree must equal it. All 16^2 operator pairs x shapes x operand decorations, all 16^3 triples x 5 shapes and all ordered pairs of 29 statement forms are enumerated completely; random trees beyond.",
+         "Trusts acorn 8 as ECMAScript reference on the subset and the S-expression normalisers (three front ends cross-checked on every case).", "5/C02"),
+ "C03": ("exploration", "runtime monitor: assembled ast trees printed by the real printers, re-parsed by the real parser, shape and byte-for-byte fixed point compared; exhaustive to depth 3",
+         "Trees are assembled from public ast node types (no grouping nodes), printed compact / pretty / pretty-tab-nosemi, re-parsed and compared by shape; the re-parsed tree is printed again and must reproduce the text. Every (parent, operand slot, child, operand slot, grandchild) combination over 25 operator kinds is enumerated; random trees to depth 10; parser-produced trees ride along.",
+         "Oracle is the assembled tree itself; only xjs's own parser judges the printed text (ECMAScript validity of assembled trees is not required by the property).", "5/C03"),
+ "C10": ("exploration", "runtime monitor: invariants of the recorded token stream against the input bytes (tiling, positions, maximal munch, newline flag, end-of-input stability) over byte strings, lexeme-fragment soups, all prefixes, rendered programs",
+         "The lexer is run to end-of-input on every input; each token's Start/End/Literal/AfterNewline is checked against the bytes themselves with reference scans for string extents and well-formed numbers; rendered programs are additionally compared with the renderer's ground-truth token table. CPU-time watchdog decides non-termination.",
+         "Line break = LF; lone CR/U+2028/U+2029 treated as ordinary bytes (documented). Go native fuzzing of the same monitor is an additional explorer in the thorough tier.", "5/C10"),
+ "C11": ("exploration", "runtime monitor: invariants over ParseProgram's returned values in 4 modes (error iff list, no nil/typed-nil statements via reflective walk, error ranges = token ranges, mandatory children, 42 compiler configurations panic-free) over bytes, soups, token-level mutants, deep nesting",
+         "Every input is parsed in strict/tolerant x smart on/off under panic capture and a CPU-time watchdog (stack overflow and hangs are caught by the parent from the worker journal); invariants are evaluated on what came back.",
+         "Inputs <= 64 KiB, nesting <= 5000.", "5/C11"),
+ "C12": ("fault_enumeration", "runtime monitor with fault enumeration: every single-token deletion, separator removal and truncation point of valid programs; acorn AND V8 decide 'no longer JavaScript'; recorded strict-mode errors and first error position checked",
+         "For each sampled valid program all corruptions of the three kinds are enumerated (not sampled); those that both reference parsers reject must yield a strict-mode error whose first range does not precede the last intact token. Six documented leniencies of the parser (early errors etc.) are open findings keyed by root cause and re-run from stored witnesses on every run.",
+         "Attribution of an accepted text to a known leniency is by feature of xjs's own tree (DESIGN 6.4): an unrelated missing check that only shows on texts with such a feature would be masked.", "5/C12"),
  "C09": ("exploration", "runtime monitor: reference-model (sequential model of the builder) + independent Source-Map-v3 decoder over operation histories; exhaustive VLQ delta enumeration",
          "Every history is executed on the real sourcemap builder in lock-step with a sequential model; the emitted mappings are decoded by an own decoder and compared segment by segment. Deltas in [-2^20,2^20] are enumerated completely for source line/column (0..2^20 generated column, +-2^12 name index); random histories of up to 200 operations beyond. Held-on-what-was-observed, not a proof.",
          "Trusts the own decoder (cross-checked against go-sourcemap on a sample) and the reading of the v3 format in DESIGN 4.6; column unit = bytes.", "5/C09"),
